@@ -30,6 +30,10 @@ def main():
             meta = json.load(open(os.path.join(d, "meta.json")))
         except (OSError, ValueError):
             meta = {}
+        if meta.get("status") == "declined":
+            out[s] = {"applied": False, "declined": meta.get("declined_because", "")}
+            print("%-7s DECLINED" % s)
+            continue
         if meta.get("status") == "obsolete":
             out[s] = {"applied": False, "obsolete": meta.get("obsolete_because", "")}
             print("%-7s OBSOLETE" % s)
